@@ -9,6 +9,7 @@ from . import rule
 from ..model import Unresolved, walk_scope, parent, enclosing_function, qualname, ancestors
 from ..paths import U, Path, Evaluator
 from .. import q
+from .zmq import stmt_list_containing
 
 UT = 'openfilter/filter_runtime/filters/util.py'
 VI = 'openfilter/filter_runtime/filters/video_in.py'
@@ -473,3 +474,139 @@ def r4(rr, repo):
                 rr.violated('the channel order of the box colour is decided without testing whether the frame is BGR', mod, rect[0].node, witness=p.pc_text(), key='box-untested')
         if rect:
             rr.ob('the box is drawn on a writable copy-on-need of the frame image (frame.rw.image), filled (-1)', rect[0].args[0] == 'frame.rw.image' and rect[0].args[-1] in ('-1',), mod, rect[0].node, witness=str(rect[0].args[:1]), key='box-rw')
+
+
+def _strip_bounds(n):
+    """peel max(1, .), min(., bound), max(., bound) wrappers off a dimension term -> the scaled core"""
+    while isinstance(n, ast.Call) and isinstance(n.func, ast.Name) and n.func.id in ('max', 'min') and len(n.args) == 2:
+        a, b = n.args
+        if isinstance(a, ast.Constant):
+            n = b
+        elif isinstance(b, ast.Constant):
+            n = a
+        elif U(b).startswith('xform.') and not U(a).startswith('xform.'):
+            n = a
+        elif U(a).startswith('xform.') and not U(b).startswith('xform.'):
+            n = b
+        else:
+            break
+    return n
+
+
+def _factor(core, dim):
+    """which ratio scales `frame.<dim>` in core: 'id' | 'wr' (xform.width / frame.width) | 'hr' | 'min' | 'max' | None"""
+    t = U(core).replace(' ', '')
+    if t == f'frame.{dim}':
+        return 'id'
+    if not (isinstance(core, ast.Call) and U(core.func) == 'int' and len(core.args) == 1):
+        return None
+    e = U(core.args[0]).replace(' ', '')
+    wr, hr = 'xform.width/frame.width', 'xform.height/frame.height'
+    if e == f'frame.{dim}*{wr}':
+        return 'wr'
+    if e == f'frame.{dim}*{hr}':
+        return 'hr'
+    for f in ('min', 'max'):
+        if e in (f'frame.{dim}*{f}({wr},{hr})', f'frame.{dim}*{f}({hr},{wr})'):
+            return f
+    return None
+
+
+@rule('C17.R5', "the 'x' forms keep the aspect ratio by construction: whenever maxsize / minsize rescale, width and height are multiplied by ONE common ratio - the width ratio, the height ratio, or their min (maxsize) / "
+                "max (minsize) - the dimension that is not scaled is exactly the one the bound fixes, and the '+' forms (aspect off) never scale")
+def r5(rr, repo):
+    mod, fn, paths = util_size_paths(repo)
+    rr.paths += len(paths)
+    seen = set()
+    for p in paths:
+        act = action_of(p)
+        if act not in ('maxsize', 'minsize'):
+            continue
+        asp = p.facts.get("truthy(xform.get('aspect', True))")
+        for e in resize_calls(p):
+            size = e.value.args[1]
+            if not (isinstance(size, ast.Tuple) and len(size.elts) == 2):
+                continue
+            fw, fh = _factor(_strip_bounds(size.elts[0]), 'width'), _factor(_strip_bounds(size.elts[1]), 'height')
+            if fw is None or fh is None:
+                rr.unresolved(f'{act}: a dimension handed to cv2.resize is not frame.<dim> times a recognised ratio', mod, e.node, witness=U(size)[:160], key=f'aspect-form|{act}')
+                continue
+            both = 'min' if act == 'maxsize' else 'max'
+            if asp is False:
+                rr.ob(f"{act} with '+' (aspect off): neither dimension is scaled, each is only bounded", (fw, fh) == ('id', 'id'), mod, e.node, witness=f'({fw}, {fh})', key=f'aspect-off|{act}')
+                continue
+            ok = (fw, fh) in (('id', 'id'), ('id', 'wr'), ('hr', 'id'), (both, both))
+            seen.add((act, fw, fh))
+            rr.ob(f'{act}: width and height are scaled by one common ratio (width ratio with the width bound, height ratio with the height bound, or {both} of the two for both)', ok, mod, e.node,
+                  witness=f'width x {fw}, height x {fh}: {U(size)[:120]}', key=f'aspect|{act}|{fw}|{fh}')
+            # the unscaled dimension must be the one that is over / under its bound (it becomes the bound = itself times the same ratio)
+            rel_h = [v for k, v in p.pc if k == 'ord(frame.height, xform.height)']
+            over = '>' if act == 'maxsize' else '<'
+            if (fw, fh) == ('id', 'wr') and rel_h:
+                rr.ob(f'{act}: height is scaled by the width ratio only when the height itself is within its bound', rel_h[-1] != over, mod, e.node, witness=p.pc_text()[-120:], key=f'aspect-case|{act}|wr')
+            if (fw, fh) == ('hr', 'id') and rel_h:
+                rr.ob(f'{act}: width is scaled by the height ratio only when the height is beyond its bound', rel_h[-1] == over, mod, e.node, witness=p.pc_text()[-120:], key=f'aspect-case|{act}|hr')
+    for act in ('maxsize', 'minsize'):
+        both = 'min' if act == 'maxsize' else 'max'
+        rr.ob(f'{act} has all three rescaling cases (width ratio, height ratio, {both} of both)', {(act, 'id', 'wr'), (act, 'hr', 'id'), (act, both, both)} <= seen, mod, fn, witness=str(sorted(x[1:] for x in seen if x[0] == act)), key=f'aspect-cases|{act}')
+
+
+@rule('C17.R6', "'WxH' means width first: the size pattern's first number becomes the width bound, the second the height bound, the separator decides the aspect mode ('x' keeps the aspect, '+' bounds independently), "
+                'in the Util filter and in the video reader alike; the box pattern fills x, y, width, height in the order it is written')
+def r6(rr, repo):
+    import re._parser as sp
+    import re._constants as sc
+    mod, nc = repo.find(f'{UT}::Util.normalize_config')
+    # the pattern
+    pats = {}
+    for m_ in (repo.module(UT), repo.module(VI)):
+        for st in m_.tree.body:
+            if isinstance(st, ast.Assign) and isinstance(st.targets[0], ast.Name) and st.targets[0].id in ('re_size', 're_box') and isinstance(st.value, ast.Call) and st.value.args and q.const_str(st.value.args[0]):
+                pats[(m_.relpath, st.targets[0].id)] = (st.value.args[0].value, st)
+    def groups(pattern):
+        out = []
+        for op, av in sp.parse(pattern, re.VERBOSE | re.IGNORECASE):
+            if op is sc.SUBPATTERN and av[0] is not None:
+                inner = list(av[3])
+                if len(inner) == 1 and inner[0][0] is sc.MAX_REPEAT and list(inner[0][1][2]) == [(sc.IN, [(sc.CATEGORY, sc.CATEGORY_DIGIT)])]:
+                    out.append('digits')
+                elif len(inner) == 1 and inner[0][0] is sc.IN:
+                    out.append('sep:' + ''.join(sorted(chr(v) for o_, v in inner[0][1] if o_ is sc.LITERAL)))
+                else:
+                    out.append('other')
+            elif op is sc.MAX_REPEAT and list(av[2]) and list(av[2])[0][0] is sc.SUBPATTERN and list(av[2])[0][1][0] is not None:
+                out.append('optional')
+        return out
+    for key, (pat, st) in pats.items():
+        if key[1] != 're_size':
+            continue
+        g = groups(pat)
+        rr.ob(f'{key[0]}: the size pattern captures <number> <x or +> <number> [interpolation] in that order', g[:3] == ['digits', 'sep:+x', 'digits'] and len(g) == 4, repo.module(key[0]), st, witness=str(g), key=f'size-pattern|{key[0]}')
+    sizes = sorted({p for (f_, n_), (p, _) in pats.items() if n_ == 're_size'})
+    rr.ob('the Util filter and the video reader parse sizes with the same pattern', len(sizes) == 1 and len([k for k in pats if k[1] == 're_size']) == 2, mod, nc, witness=f'{len(sizes)} distinct patterns', key='size-pattern-same')
+    # Util.normalize_config: unpack order and stores
+    unp = [n for n in walk_scope(nc) if isinstance(n, ast.Assign) and isinstance(n.targets[0], ast.Tuple) and U(n.value).endswith('.groups()')]
+    un4 = [n for n in unp if len(n.targets[0].elts) == 4]
+    rr.floor('size unpackings in Util.normalize_config', len(un4), 1, mod, nc)
+    for n in un4:
+        a, b, c, d = [U(e) for e in n.targets[0].elts]
+        _, lst, idx = stmt_list_containing(n)
+        st = {U(s.targets[0]): U(s.value) for s in lst[idx + 1:] if isinstance(s, ast.Assign) and len(s.targets) == 1}
+        rr.ob('the first number is the width bound, the second the height bound', st.get('xform.width') == f'int({a})' and st.get('xform.height') == f'int({c})', mod, n, witness=str({k: v for k, v in st.items() if k.startswith('xform.')}), key='size-fields')
+        asp = [s for s in lst[idx + 1:] if isinstance(s, ast.If) and isinstance(s.test, ast.Compare) and U(s.test.left) == b]
+        ok = bool(asp) and isinstance(asp[0].test.ops[0], ast.NotEq) and q.const_str(asp[0].test.comparators[0]) and asp[0].test.comparators[0].value == 'x' and \
+            any(isinstance(x, ast.Assign) and U(x.targets[0]) == 'xform.aspect' and U(x.value) == 'False' for x in asp[0].body)
+        rr.ob("the aspect mode is switched off exactly when the separator is not 'x'", ok, mod, asp[0] if asp else n, key='size-aspect')
+    un5 = [n for n in unp if len(n.targets[0].elts) == 5]
+    for n in un5:
+        names = [U(e) for e in n.targets[0].elts]
+        _, lst, idx = stmt_list_containing(n)
+        st = {U(s.targets[0]): U(s.value) for s in lst[idx + 1:] if isinstance(s, ast.Assign) and len(s.targets) == 1}
+        want = {'xform.x': f'float({names[0]})', 'xform.y': f'float({names[1]})', 'xform.width': f'float({names[2]})', 'xform.height': f'float({names[3]})'}
+        rr.ob("box 'X+YxWxH': the four numbers fill x, y, width, height in the order written", all(st.get(k) == v for k, v in want.items()), mod, n, witness=str({k: st.get(k) for k in want}), key='box-fields')
+    # the video reader uses the groups positionally: (width, aspect, height, interp) = self.maxsize / self.resize
+    vmod, vfn, region, vpaths = video_paths(repo)
+    unv = [n for n in ast.walk(vfn) if isinstance(n, ast.Assign) and isinstance(n.targets[0], ast.Tuple) and len(n.targets[0].elts) == 4 and U(n.value) in ('size', 'self.maxsize', 'self.resize', 'maxsize', 'resize')]
+    for n in unv:
+        names = [U(e) for e in n.targets[0].elts]
+        rr.ob('video reader: the parsed size is taken apart as (width, aspect, height, interpolation)', names[0].startswith('w') and names[2].startswith('h') and 'asp' in names[1], vmod, n, witness=str(names), key='vsize-unpack')
